@@ -441,6 +441,8 @@ impl Simulation {
             None => return Ok(None),
         };
         self.time.write(current_key.0);
+        #[cfg(nexosim_verif)]
+        crate::verif::point(42, 0, 0);
 
         loop {
             let action = pull_next_action(&mut scheduler_queue);
@@ -475,6 +477,8 @@ impl Simulation {
                 Some(k) if k.0 == current_key.0 => k,
                 // Otherwise wait until all actions have completed and return.
                 _ => {
+                    #[cfg(nexosim_verif)]
+                    crate::verif::point(43, 0, 0);
                     drop(scheduler_queue); // make sure the queue's mutex is released.
 
                     let current_time = current_key.0;
